@@ -140,7 +140,7 @@ def gen_scenario(seed: int, profile: Optional[dict] = None) -> dict:
         se = rng.choice(a["entities"])
         de = rng.choice(b["entities"])
         slot = (a["sid"], se, b["sid"], de, da)
-        if slot in used_slots:
+        if slot in used_slots and not prof.get("wild"):
             continue
         src_pers = a["outs"][sa] == "persistent"
         dst_trig = _is_trigger(b, da)
@@ -153,7 +153,9 @@ def gen_scenario(seed: int, profile: Optional[dict] = None) -> dict:
             c["weak"] = True
         if kind in ("shift", "weak"):
             if not src_pers and not dst_trig:
-                continue            # envelope (iii)
+                if not prof.get("wild"):
+                    continue        # envelope (iii)
+                c["init"] = f"init:{a['sid']}.{se}.{sa}"
             if kind == "weak" and src_pers and dst_trig:
                 continue            # envelope (iv)
             if src_pers:
@@ -257,3 +259,8 @@ PROFILES["tiny_flat"] = {"n_sims": (2, 3), "until": (2, 3), "n_conns": (1, 4), "
 PROFILES["sibling"] = {"depth": 2, "p_root": 0.15, "n_sims": (3, 5), "kinds": {"plain": 5, "shift": 1, "weak": 5},
                        "types": {"time-based": 1, "event-based": 6, "hybrid": 3}, "p_initial_event": 0.9,
                        "n_conns": (3, 8), "Lmax": 3}
+
+# outside the data envelope (several connections into one input slot, initial data on event connections):
+# only completion (C05) is judged on these, never the data content
+PROFILES["wild"] = {"wild": True, "n_conns": (3, 10), "p_two_entities": 0.2}
+PROFILES["wild_flat"] = {"wild": True, "n_conns": (3, 10), "depth": 0, "kinds": {"plain": 5, "shift": 5, "weak": 0}}
